@@ -64,6 +64,12 @@ def build_response(fam, sensor, tname, own: bytes, first_delta: int, salt: int, 
     if tcp:
         cmd = ModbusTcpReadCommand(0xF7, first, count)
         frame = rw.tcp_read_response(1, 0xF7, bytes(payload))
+        # GoodWe firmware is known to send inconsistent MBAP length fields; the library documents that it ignores them
+        # ("length check ignored due to Goodwe bugs"), so the decoded block must not depend on that field either
+        variant = salt % 6
+        if variant:
+            ln = (len(payload), 0, 6, 0xFFFF, len(payload) + 300)[variant - 1]
+            frame = frame[:4] + (ln & 0xFFFF).to_bytes(2, "big") + frame[6:]
     else:
         cmd = ModbusRtuReadCommand(0xF7, first, count)
         frame = rw.rtu_read_response_unsealed(0xF7, bytes(payload))
